@@ -164,7 +164,12 @@ impl Batch {
                 let src = if live.contains(id) {
                     self.cases[id].clone()
                 } else {
-                    "pub fn run() -> Vec<String> { vec![\"__REMOVED__\".to_string()] }\n".to_string()
+                    if self.opts.no_std {
+                        // (check-only crates without `std`: nothing runs, nothing may name `Vec`)
+                        "pub fn run() {}\n".to_string()
+                    } else {
+                        "pub fn run() -> Vec<String> { vec![\"__REMOVED__\".to_string()] }\n".to_string()
+                    }
                 };
                 std::fs::write(mdir.join("src").join(format!("{id}.rs")), src).map_err(|e| e.to_string())?;
                 if live.contains(id) {
